@@ -27,6 +27,8 @@ pub enum ReadError {
     InvalidMinShift(num::TryFromIntError),
     /// The depth is invalid.
     InvalidDepth(num::TryFromIntError),
+    /// The binning scheme, i.e., the combination of the min shift and depth, is invalid.
+    InvalidBinningScheme(io::Error),
     /// The header is invalid.
     InvalidHeader(header::ReadError),
     /// A reference sequence is invalid.
@@ -40,6 +42,7 @@ impl error::Error for ReadError {
             Self::InvalidMagicNumber(_) => None,
             Self::InvalidMinShift(e) => Some(e),
             Self::InvalidDepth(e) => Some(e),
+            Self::InvalidBinningScheme(e) => Some(e),
             Self::InvalidHeader(e) => Some(e),
             Self::InvalidReferenceSequences(e) => Some(e),
         }
@@ -53,6 +56,7 @@ impl fmt::Display for ReadError {
             Self::InvalidMagicNumber(_) => write!(f, "invalid magic number"),
             Self::InvalidMinShift(_) => write!(f, "invalid min shift"),
             Self::InvalidDepth(_) => write!(f, "invalid depth"),
+            Self::InvalidBinningScheme(_) => write!(f, "invalid binning scheme"),
             Self::InvalidHeader(_) => write!(f, "invalid header"),
             Self::InvalidReferenceSequences(_) => write!(f, "invalid reference sequences"),
         }
@@ -73,6 +77,7 @@ where
 
     let min_shift = read_min_shift(reader)?;
     let depth = read_depth(reader)?;
+    validate_binning_scheme(min_shift, depth)?;
 
     let header = read_aux(reader).map_err(ReadError::InvalidHeader)?;
 
@@ -127,6 +132,14 @@ where
 {
     let n = read_i32_le(reader)?;
     u8::try_from(n).map_err(ReadError::InvalidDepth)
+}
+
+fn validate_binning_scheme(min_shift: u8, depth: u8) -> Result<(), ReadError> {
+    use crate::binning_index::index::max_position;
+
+    max_position(min_shift, depth)
+        .map(|_| ())
+        .map_err(ReadError::InvalidBinningScheme)
 }
 
 fn read_unplaced_unmapped_record_count<R>(reader: &mut R) -> Result<Option<u64>, ReadError>
@@ -213,6 +226,26 @@ mod tests {
         ));
 
         Ok(())
+    }
+
+    #[test]
+    fn test_validate_binning_scheme() {
+        assert!(validate_binning_scheme(14, 5).is_ok());
+
+        assert!(matches!(
+            validate_binning_scheme(0, 5),
+            Err(ReadError::InvalidBinningScheme(_))
+        ));
+
+        assert!(matches!(
+            validate_binning_scheme(14, 11),
+            Err(ReadError::InvalidBinningScheme(_))
+        ));
+
+        assert!(matches!(
+            validate_binning_scheme(255, 10),
+            Err(ReadError::InvalidBinningScheme(_))
+        ));
     }
 
     #[test]
